@@ -161,6 +161,34 @@ def linform(e: ast.AST, env: dict[str, Form]) -> Form:
         if isinstance(c, ast.Compare) and len(c.ops) == 1 and isinstance(c.ops[0], ast.In) \
                 and isinstance(c.left, ast.Constant) and c.left.value == 'xml':
             return {'1': 1, 'X': -1}
+    if isinstance(e, ast.Call) and dotted(e.func) == 'sum' and len(e.args) == 1 \
+            and isinstance(e.args[0], (ast.GeneratorExp, ast.ListComp)) \
+            and len(e.args[0].generators) == 1 \
+            and isinstance(e.args[0].elt, ast.Constant) and e.args[0].elt.value == 1:
+        # sum(1 for .. in M[.items()|.values()] [if cond]): a (filtered) count of M
+        gen = e.args[0].generators[0]
+        it = gen.iter
+        view = ''
+        if isinstance(it, ast.Call) and isinstance(it.func, ast.Attribute) \
+                and it.func.attr in ('items', 'keys', 'values') and not it.args:
+            view, it = it.func.attr, it.func.value
+        a = atom_of_len(it)
+        if a:
+            if not gen.ifs:
+                return {a: 1}
+            names = {}
+            for i, t in enumerate(gen.target.elts if isinstance(gen.target, ast.Tuple)
+                                  else [gen.target]):
+                if isinstance(t, ast.Name):
+                    names[t.id] = f'{view or "k"}{i}'
+            conds = []
+            for c in gen.ifs:
+                c2 = ast.parse(stmt_text(c), mode='eval').body
+                for y in ast.walk(c2):
+                    if isinstance(y, ast.Name) and y.id in names:
+                        y.id = names[y.id]
+                conds.append(stmt_text(c2))
+            return {f'{a}|' + ' and '.join(sorted(conds)): 1}
     if isinstance(e, ast.Attribute) and dotted(e) == 'self.position':
         return {'P': 1}
     if isinstance(e, ast.IfExp):
